@@ -394,9 +394,14 @@ package keeper
 // C04: a group whose members have all confirmed or complained leaves round 3 as ACTIVE exactly when NO member
 // record is flagged malicious, and as FALLEN otherwise; rounds 1 and 2 just advance (round 1 also fixes the group
 // key = accumulated commitment 0). Only this group's record is written in the tss store.
+// C18: the owner module (bandtss) is told "created" only about THIS group and only when it has just become ACTIVE, and
+// "failed" only about this group and only when it has just FALLEN - a failed key generation reported as completed would
+// make bandtss hand the chain's signing over to a group that has no usable key.
 //@ func (k Keeper) HandleProcessGroup
 //@ may_panic calls
-//@ modifies Store_tss, Other, Bank
+//@ modifies Store_tss, Other, Bank, Count_OnGroupCreationCompleted, Count_OnGroupCreationFailed
+//@ ensures forall g Int :: Count_OnGroupCreationCompleted[g] != old(Count_OnGroupCreationCompleted)[g] ==> g == groupID && groupAt(Store_tss, groupID).Status == types.GROUP_STATUS_ACTIVE && old(groupAt(Store_tss, groupID)).Status == types.GROUP_STATUS_ROUND_3
+//@ ensures forall g Int :: Count_OnGroupCreationFailed[g] != old(Count_OnGroupCreationFailed)[g] ==> g == groupID && groupAt(Store_tss, groupID).Status == types.GROUP_STATUS_FALLEN && old(groupAt(Store_tss, groupID)).Status == types.GROUP_STATUS_ROUND_3
 //@ requires has(Store_tss, types.GroupStoreKey(groupID)) ==> groupAt(Store_tss, groupID).ID == groupID
 //@ ensures forall q Bz :: q != types.GroupStoreKey(groupID) ==> Store_tss[q] == old(Store_tss)[q]
 // (a missing group record panics in MustGetGroup: on normal return the record existed, and it still does, with its id)
@@ -497,3 +502,18 @@ package keeper
 //@        lastExpired < g && g < gid && memberErr(Store_tss, g, req.Address) == 0 && owes(Store_tss, g, memberOf(Store_tss, g, req.Address).ID))
 //@ loop 0: invariant forall g Int :: lastExpired < g && g < gid && memberErr(Store_tss, g, req.Address) == 0 && owes(Store_tss, g, memberOf(Store_tss, g, req.Address).ID)
 //@        ==> (exists j :: 0 <= j && j < len(pendingGroups) && pendingGroups[j] == g)
+
+// ---- C13 / C05: an accepted signing request has its first attempt set up ----------------------------------------------
+// RequestSigning returns success only when the signing exists AND its first attempt was initiated (members assigned,
+// expiry queued): a request whose attempt could not be started (too few members with nonces) is an error, so that the
+// caller's transaction - the fee it has just escrowed included - is rolled back instead of paying for a signing that
+// nobody was ever asked to produce. (The content handlers of the router only encode: they write no state.)
+//@ func (k Keeper) RequestSigning
+//@ may_panic calls
+//@ readonly_funcvalues
+//@ modifies Store_tss, Other, Bank
+//@ requires isolated(ctx)
+//@ requires wfSignings(Store_tss)
+//@ ensures err != nil ==> result == 0
+//@ ensures err == nil ==> has(Store_tss, types.SigningStoreKey(result)) && signingAt(Store_tss, result).CurrentAttempt == 1 && signingAt(Store_tss, result).Status == types.SIGNING_STATUS_WAITING
+//@ ensures err == nil ==> has(Store_tss, types.SigningAttemptStoreKey(result, 1))
